@@ -34,7 +34,8 @@ func c04Judge(tr []Ev, err error) (fp, msg string) {
 		if err == nil {
 			return "C04:empty", "no callback ran and the run reported success"
 		}
-		return "", ""
+		// "a nil error if and only if every phase on its path succeeded": no phase failed - none ran
+		return "C04:spurious-error", fmt.Sprintf("no user callback was invoked, yet the run returned %v", err)
 	}
 	segs := segments(tr)
 	allOK := true
